@@ -16,7 +16,8 @@ LEVEL = "exploration"
 RULE = (
     "cases = call-only DAG programs (3-8 sites, picklable values, optional DAG parameter) x caching run in {whole DAG, "
     "target_nodes=T, cache_deps_of=[n...]} writing cache_in to a temp file x restart run (a freshly built DAG) in "
-    "{whole DAG, same selection, cache_deps_of again} with from_cache. oracle: caching run == reference; pickle keys "
+    "{whole DAG, same selection, cache_deps_of again} with from_cache; half of the cases run a SECOND round that rewrites "
+    "the same file path with other arguments / another selection and restarts from it again. oracle: caching run == reference; pickle keys "
     "for cache_deps_of=[n] contain every site n depends on and not n; in the restart ZERO entries of any site whose id "
     "is a key of the pickle, every other selected site entered once; restart value == reference (== caching run's "
     "value on shared outputs); restart with cache_deps_of=[n] enters exactly n. non-trivial = the file holds at "
@@ -35,13 +36,39 @@ def _executor(b: prog.Built, ids: Dict[str, str], mode: str, sel: Optional[List[
 
 
 def run_case(case: Dict[str, Any]) -> CaseResult:
+    """One or two (caching run, restart run) rounds on the SAME cache file path (a later round rewrites it)."""
+    fd, path = tempfile.mkstemp(suffix=".pkl", prefix="vlib_cache_")
+    os.close(fd)
+    os.remove(path)
+    total = CaseResult()
+    total.evals = 0
+    try:
+        rounds = [case] + [dict(case, **r) for r in case.get("more_rounds", [])]
+        for i, rc in enumerate(rounds):
+            if os.path.exists(path):
+                os.remove(path)
+            res = _round(rc, path)
+            total.evals += res.evals
+            total.nontrivial = total.nontrivial or res.nontrivial
+            total.classes.extend(res.classes)
+            total.note = res.note
+            for v in res.violations:
+                total.viol(v.bucket if i == 0 else v.bucket + "-in-later-round", f"[round {i}] " + v.msg, v.key)
+            if total.violations:
+                break
+        if len(rounds) > 1:
+            total.cls("two-rounds-same-file")
+        return total
+    finally:
+        if os.path.exists(path):
+            os.remove(path)
+
+
+def _round(case: Dict[str, Any], path: str) -> CaseResult:
     res = CaseResult()
     P = case["prog"]
     args = [prog.dec(a) for a in case.get("args", [])]
     M = Model({"prog": P, "mc": case.get("mc", 2)})
-    fd, path = tempfile.mkstemp(suffix=".pkl", prefix="vlib_cache_")
-    os.close(fd)
-    os.remove(path)
     try:
         # ---- caching run
         b1 = prog.build(P, mc=case.get("mc", 2))
@@ -116,8 +143,7 @@ def run_case(case: Dict[str, Any]) -> CaseResult:
         res.note = {"cached_sites": sorted(cached_sites), "restart_entered": sorted(entered)}
         return res
     finally:
-        if os.path.exists(path):
-            os.remove(path)
+        pass
 
 
 @st.composite
@@ -136,6 +162,16 @@ def cases(draw: Any, tier: str) -> Dict[str, Any]:
         case["restart_mode"] = draw(st.sampled_from(["whole", "target"]))
     else:
         case["restart_mode"] = "whole"
+    if draw(st.booleans()):
+        # a second round that rewrites the same file with other arguments / another selection
+        r2: Dict[str, Any] = {"args": [draw(st.sampled_from([2, 3, "b"])) for _ in range(npar)]}
+        r2["cache_mode"] = draw(st.sampled_from(["whole", "target", "deps_of"]))
+        if r2["cache_mode"] != "whole":
+            r2["cache_sel"] = draw(st.lists(st.sampled_from(sites), min_size=1, max_size=2, unique=True))
+        else:
+            r2["cache_sel"] = None
+        r2["restart_mode"] = "whole" if r2["cache_mode"] == "whole" else draw(st.sampled_from(["whole", r2["cache_mode"]]))
+        case["more_rounds"] = [r2]
     return case
 
 
